@@ -141,6 +141,20 @@ var families = []family{
 		v := strings.TrimSuffix(rep(pt[1]+", ", n), ", ") + ", 9z"
 		return stylePolicy(pt[0]), `<span style="` + gen.CanonEscape(pt[0]+": "+v) + `">x</span>`
 	}},
+	{"css-shorthand-mixed", true, func(param string, n int) ([]spec.Op, string) {
+		// param = "property\x1ftok1\x1etok2...": n components cycling through several accepted tokens and
+		// through the separators " ", ", ", " / ", "," + a rejected tail
+		pt := strings.SplitN(param, "\x1f", 2)
+		toks := strings.Split(pt[1], "\x1e")
+		seps := []string{" ", ", ", " ", " / ", ",", " "}
+		var b strings.Builder
+		for i := 0; i < n; i++ {
+			b.WriteString(toks[i%len(toks)])
+			b.WriteString(seps[(i*7+i/3)%len(seps)])
+		}
+		b.WriteString("9z")
+		return stylePolicy(pt[0]), `<span style="` + gen.CanonEscape(pt[0]+": "+b.String()) + `">x</span>`
+	}},
 	{"nest-kept", false, func(_ string, n int) ([]spec.Op, string) {
 		return []spec.Op{{K: spec.KUGC}}, rep("<b>", n) + "x" + rep("</b>", n)
 	}},
@@ -448,6 +462,13 @@ func runC14(ctx *core.Ctx) {
 		}
 		for _, t := range acc[:k] {
 			jobs = append(jobs, ladderJob{familyByName("css-shorthand-repeat"), prop + "\x1f" + t, tokLadder(ctx.N(26, 40)), prop + " x " + t})
+		}
+		if len(acc) >= 2 {
+			mix := acc
+			if len(mix) > 4 {
+				mix = mix[:4]
+			}
+			jobs = append(jobs, ladderJob{familyByName("css-shorthand-mixed"), prop + "\x1f" + strings.Join(mix, "\x1e"), tokLadder(ctx.N(26, 40)), prop + " x mixed " + strings.Join(mix, "|")})
 		}
 		if k > 0 {
 			// comma-separated layers / lists: one ladder per property
